@@ -163,6 +163,92 @@ theorem assignSet_inv {sys : Sys K V Q} (hs : SysInv E sys) (dst cap : Nat) {bui
     | ok a' s' => exact ⟨hs.1, inv_updReg hs.2 dst h⟩
 
 
+/-! ### `a.extend(b)` with `b` a set that is moved in -/
+
+/-- outcome of the loop of `extend_from` on the pair (source register, destination register): not
+    `ub`, and BOTH registers satisfy the invariant and keep their capacities — whether the loop
+    ran to its end or unwound (then the rest of the source has been dropped: a fresh `new()`). -/
+def PairInv (F : Env K Unit Q) (cs cd : Nat) (r : Res (Raw K Unit × St K Unit Q) Unit) : Prop :=
+  match r with
+  | .ok _ x => (Inv F x.1 ∧ x.1.cap = cs) ∧ (Inv F x.2.r ∧ x.2.r.cap = cd)
+  | .panic _ x => (Inv F x.1 ∧ x.1.cap = cs) ∧ (Inv F x.2.r ∧ x.2.r.cap = cd)
+  | .ub => False
+
+/-- **the loop of `a.extend(b)`** keeps both sets well-formed in ANY world: with an injected panic
+    inside `insert` (a panicking `==`), with the destination overflowing, in either profile.  The
+    clean-up drop of the rest of the source runs in unwinding mode and therefore completes. -/
+theorem extendFromLoop_inv (F : Env K Unit Q) : ∀ (n : Nat) (rs : Raw K Unit) (sd : St K Unit Q),
+    Inv F rs → Inv F sd.r → PairInv F rs.cap sd.r.cap (extendFromLoop F n rs sd)
+  | 0, rs, sd, hs, hd => ⟨⟨hs, rfl⟩, hd, rfl⟩
+  | n + 1, rs, sd, hs, hd => by
+    obtain ⟨l, hr, hn⟩ := hs
+    have hn' : F.Good → NodupKeys F.keq l.dropLast :=
+      fun hg => nodupKeys_of_sublist (hn hg) (List.dropLast_sublist l)
+    have h1 := Iters.intoIterNextK_sat F .keys (s := ⟨rs, sd.w⟩) hr
+    unfold Sat at h1
+    unfold extendFromLoop
+    cases hm : intoIterNextK F .keys ⟨rs, sd.w⟩ with
+    | ub => rw [hm] at h1; exact h1
+    | panic c s1 =>
+      rw [hm] at h1
+      obtain ⟨h2, h3, _⟩ := h1
+      exact ⟨⟨⟨_, h2, hn'⟩, h3⟩, hd, rfl⟩
+    | ok o s1 =>
+      rw [hm] at h1
+      obtain ⟨_, h2, h3, _⟩ := h1
+      have hs1 : Inv F s1.r := ⟨_, h2, hn'⟩
+      cases o with
+      | none => exact ⟨⟨hs1, h3⟩, hd, rfl⟩
+      | some p =>
+        simp only
+        have h4 := opInv_insert F p.1 () ⟨sd.r, s1.w⟩ hd
+        unfold Sat at h4
+        cases hi : insert F p.1 () ⟨sd.r, s1.w⟩ with
+        | ub => rw [hi] at h4; exact h4
+        | ok a s2 =>
+          rw [hi] at h4
+          have ih := extendFromLoop_inv F n s1.r s2 hs1 h4.1
+          rw [h3, h4.2] at ih
+          exact ih
+        | panic c s2 =>
+          rw [hi] at h4
+          have h5 := Iters.dropAndRenew_unw F (s := (⟨s1.r, s2.w⟩ : St K Unit Q).setUnw true) h2 rfl
+          unfold Sat at h5
+          simp only
+          cases hdr : dropAndRenew F ((⟨s1.r, s2.w⟩ : St K Unit Q).setUnw true) with
+          | ub => rw [hdr] at h5; exact h5
+          | panic c' s3 => rw [hdr] at h5; exact h5
+          | ok u s3 =>
+            rw [hdr] at h5
+            have h6 : s3.r = Raw.new s1.r.cap := h5.1
+            exact ⟨⟨h6 ▸ Inv.new F _, by rw [h6]; exact h3⟩, h4.1, h4.2⟩
+
+/-- **`sets[i].extend(sets[j])`** (`i ≠ j`) at the system level: no `ub`, and every register
+    satisfies the invariant afterwards — in any world. -/
+theorem extendFrom_inv {sys : Sys K V Q} (hs : SysInv E sys) (i j : Nat) :
+    ResInv E (extendFrom E sys i j) := by
+  have h := extendFromLoop_inv E.toUnit ((sys.sets j).len + 1) (sys.sets j) ⟨sys.sets i, sys.w.toUnit⟩
+    (hs.2 j) (hs.2 i)
+  have hfin : ∀ (rs rd : Raw K Unit) (u : World K Unit Q), Inv E.toUnit rs → Inv E.toUnit rd →
+      SysInv E (extendFin sys i j rs rd u) := fun rs rd u h1 h2 =>
+    ⟨hs.1, inv_updReg (inv_updReg hs.2 j h1) i h2⟩
+  unfold PairInv at h
+  unfold extendFrom ResInv
+  cases hl : extendFromLoop E.toUnit ((sys.sets j).len + 1) (sys.sets j) ⟨sys.sets i, sys.w.toUnit⟩ with
+  | ub => rw [hl] at h; exact h
+  | panic c x => rw [hl] at h; exact hfin _ _ _ h.1.1 h.2.1
+  | ok u x =>
+    rw [hl] at h
+    obtain ⟨l, hrep, _⟩ := h.1.1
+    have hd := dropAndRenew_sat E.toUnit (s := ⟨x.1, x.2.w⟩) hrep
+    unfold Sat at hd
+    simp only
+    cases hdr : dropAndRenew E.toUnit ⟨x.1, x.2.w⟩ with
+    | ub => rw [hdr] at hd; exact hd
+    | panic c s4 => rw [hdr] at hd; exact hfin _ _ _ (hd ▸ Inv.new _ _) h.2.1
+    | ok u' s4 => rw [hdr] at hd; exact hfin _ _ _ (hd ▸ Inv.new _ _) h.2.1
+
+
 /-! ### `step` and `run` -/
 
 variable (R : Render K V)
@@ -260,6 +346,13 @@ theorem stepCore_inv {sys : Sys K V Q} (hs : SysInv E sys) (op : Op K V Q) (hop 
       simp only [stepCore]
       revert h; generalize assignSet E sys dst _ _ = r; intro h
       cases r <;> exact h
+    | extend_from o =>
+      simp only [stepCore]
+      split
+      · exact hs
+      · have h := extendFrom_inv E hs reg o
+        revert h; generalize extendFrom E sys reg o = r; intro h
+        cases r <;> exact h
     | _ =>
       simp only [stepCore]
       generalize hr : runOnSet sys reg _ = r
